@@ -118,6 +118,7 @@ func main() {
 		dumpSkips(e)
 		dumpGuards(e)
 		dumpArgs(e)
+		dumpFields(e)
 		return
 	}
 	if *dump == "atoms" {
